@@ -224,9 +224,13 @@ def Method.okTotal (m : Method) : Bool :=
   (m.products.filter (fun p => p.1 == "Sq") == [("Sq", m.totalBucket, m.totalBucket)]) &&
   (m.divisors.filter (fun d => d.1 == "Sq") == [("Sq", Dv.total)])
 
+/-- no routed accumulator is the unconditional one -/
+def Method.okNoAlias (m : Method) : Bool :=
+  (m.elseBucket != some m.totalBucket) && m.chain.all fun p => p.2 != m.totalBucket
+
 /-- everything the refinement theorem needs of the method used for K species -/
 def Method.ok (m : Method) (K : Nat) : Bool :=
-  (K == 1 || K > 5 || m.okRouting K) && m.okTotal && (m.columns == "q" :: Spec.columns K) &&
+  (K == 1 || K > 5 || m.okRouting K) && m.okNoAlias && m.okTotal && (m.columns == "q" :: Spec.columns K) &&
   (Spec.pairs K).all fun p => m.okPair p.1 p.2
 
 /-! ### dispatch (`getresults`) -/
